@@ -8,6 +8,7 @@
 import PygModel.Group
 import PygProofs.Lemmas.GroupLemmas
 import PygProofs.Lemmas.UnlistLemmas
+import PygProofs.Lemmas.PivotLemmas
 
 namespace Pyg.Props.C11
 open Pyg
@@ -174,6 +175,64 @@ theorem groupby_all_keys (t : Table) (grp : String) (hn : t.nrows ≠ 0) :
   have hc' : t.cols.isEmpty = false := by cases h : t.cols <;> simp_all
   simp [Table.groupby, hn, hc, hc']
 
+/-! ## pivot / unpivot -/
+
+/-- **pivot, every cell**: for a non-empty table whose `x`, `y`, `z` columns exist (labels renderable
+and distinct), `d.xyz(x, y, z, agg)` has one row per group `gx` of x keys and one column per group
+`gy` of y values, and the cell at (`gx`, label of `gy`) is `None` when no row has that x key and that
+y value, else `agg` of the z values of exactly those rows in original row order (`agg = None`: the
+list itself).  `pivot_addresses` (lemma file) adds that every row has such a `gx` and `gy`. -/
+theorem pivot_cell (t : Table) (x : List String) (y z : String) (agg : Agg) (zs : List Cell)
+    (labels : List String)
+    (hn : t.nrows ≠ 0) (hx : x ≠ [])
+    (hcols : ∀ k ∈ x ++ [y], (t.col? k).isSome = true) (hz : t.col? z = some zs) :
+    let xyg := listbyG (xyKeys t.nrows (xCells t x) (yCell t y))
+    let xg := listbyG (xyg.map fun g => xPart x.length g.1)
+    let ys := listbyG ((xyg.map fun g => tupleGet x.length g.1).map fun v => .tuple [v])
+    ys.mapM (fun g => yLabel (tupleGet 0 g.1)) = some labels → (x ++ labels).Nodup →
+    t.pivot x y z agg = some (.ok (keyColsOf x xg ++
+      (labels.zip ys).map fun p => (p.1, xg.map fun gx =>
+        let rows := (List.range t.nrows).filter fun i =>
+          cmp (.tuple (xCells t x i)) gx.1 == .eq && cmp (.tuple [yCell t y i]) p.2.1 == .eq
+        if rows = [] then .cell .none else agg.apply (rows.map fun i => zs.getD i .none)))) := by
+  intro xyg xg ys hlab hnd
+  have hx' : x.isEmpty = false := by cases x <;> simp_all
+  have hk := keysOf_xy t x y hcols
+  simp only [Table.pivot, hn, hx', or_self, Bool.false_eq_true, if_false, hk, hz]
+  simp only [xyg, xg, ys] at hlab ⊢
+  rw [hlab]
+  simp only [hnd, not_true_eq_false, if_false]
+  congr 3
+  apply List.map_congr_left
+  intro p _
+  congr 1
+  apply List.map_congr_left
+  intro gx hgx
+  exact pivotCell_spec t.nrows x.length (xCells t x) (yCell t y) zs agg hn
+    (by intro i; simp [xCells]) gx p.2 hgx
+
+/-- **unpivot**: every row of the pivot table gives one row per label column: the x cells, the
+label (as a string) and the cell; rows in row-major order -/
+theorem unpivot_rows (p : VTable) (x : List String) (y z : String)
+    (hx : ∀ k ∈ x, (p.find? (·.1 == k)).isSome = true) :
+    let ycols := (p.map (·.1)).filter fun c => !x.contains c
+    p.unpivot x y z = .ok (
+      (x.map fun k => (k, (List.range p.nrows).flatMap fun i =>
+        List.replicate ycols.length ((((p.find? (·.1 == k)).map (·.2)).getD []).getD i (.cell .none)))) ++
+      [(y, (List.range p.nrows).flatMap fun _ => ycols.map fun c => Val.cell (.str c)),
+       (z, (List.range p.nrows).flatMap fun i => ycols.map fun c =>
+          (((p.find? (·.1 == c)).map (·.2)).getD []).getD i (.cell .none))]) := by
+  intro ycols
+  simp only [VTable.unpivot]
+  rw [mapM_ok_of_forall (g := fun k => (k, (List.range p.nrows).flatMap fun i =>
+    List.replicate ycols.length ((((p.find? (·.1 == k)).map (·.2)).getD []).getD i (.cell .none))))]
+  · rfl
+  · intro k hk
+    have := hx k hk
+    cases hf : p.find? (·.1 == k) with
+    | none => simp [hf] at this
+    | some c => simp [ycols]
+
 /-! ## non-vacuity and evaluation tests -/
 
 def exT : Table := [("a", [.int 2, .flt 4, .int 1, .flt 8, .none]), ("v", [.int 10, .int 11, .int 12, .int 13, .int 14])]
@@ -189,6 +248,27 @@ example : exT.nrows ≠ 0 ∧ ["a"] ≠ [] ∧ ["a"].length ≠ exT.cols.length 
   | .ok l => (match l.unlist with
     | .ok u => u == [("a", [.cell .none, .cell (.int 1), .cell (.int 1), .cell (.flt 8), .cell (.flt 8)]),
                      ("v", [.cell (.int 14), .cell (.int 11), .cell (.int 12), .cell (.int 10), .cell (.int 13)])]
+    | _ => false)
+  | _ => false)
+
+def exP : Table := [("a", [.int 1, .int 1, .int 2, .int 1]), ("y", [.str "p", .str "q", .str "p", .str "p"]),
+  ("z", [.int 10, .int 20, .int 30, .int 40])]
+
+/-- the hypotheses of `pivot_cell` hold on a table with a duplicate (x, y) pair and a missing one -/
+example : exP.nrows ≠ 0 ∧ (∀ k ∈ ["a"] ++ ["y"], (exP.col? k).isSome = true) ∧
+    exP.col? "z" = some [.int 10, .int 20, .int 30, .int 40] := by
+  refine ⟨by decide, by decide, rfl⟩
+
+#guard (match exP.pivot ["a"] "y" "z" .none with
+  | some (.ok p) => p == [("a", [.cell (.int 1), .cell (.int 2)]),
+      ("p", [.list [.cell (.int 10), .cell (.int 40)], .list [.cell (.int 30)]]),
+      ("q", [.list [.cell (.int 20)], .cell .none])]
+  | _ => false)
+#guard (match exP.pivot ["a"] "y" "z" .last with
+  | some (.ok p) => (match p.unpivot ["a"] "y" "z" with
+    | .ok u => u == [("a", [.cell (.int 1), .cell (.int 1), .cell (.int 2), .cell (.int 2)]),
+        ("y", [.cell (.str "p"), .cell (.str "q"), .cell (.str "p"), .cell (.str "q")]),
+        ("z", [.cell (.int 40), .cell (.int 20), .cell (.int 30), .cell .none])]
     | _ => false)
   | _ => false)
 
